@@ -687,6 +687,11 @@ static void worker_fn(void *arg)
     worker_leave(me);
 }
 
+static int c_many_probe;
+static void probe_fn(void *arg)
+{
+    (void)arg;
+}
 static void run_scenario(vrt_rng *r, int idx, long ops)
 {
     VRT_ABT(ABT_init(0, NULL));
@@ -715,6 +720,26 @@ static void run_scenario(vrt_rng *r, int idx, long ops)
         VRT_ABT(ABT_thread_create(g_pools[w->pool], worker_fn, w, attr, &w->th_created));
         if (attr != ABT_THREAD_ATTR_NULL)
             VRT_ABT(ABT_thread_attr_free(&attr));
+    }
+    /* one user-supplied stack cannot serve several ULTs: ABT_thread_create_many
+     * with such an attribute must be refused */
+    {
+        ABT_thread_attr a;
+        ABT_thread ths[3] = { ABT_THREAD_NULL, ABT_THREAD_NULL, ABT_THREAD_NULL };
+        ABT_pool pl[3] = { g_pools[0], g_pools[0], g_pools[0] };
+        static void (*fns[3])(void *) = { probe_fn, probe_fn, probe_fn };
+        char *stk = (char *)aligned_alloc(64, g_default_stack);
+        VRT_ABT(ABT_thread_attr_create(&a));
+        VRT_ABT(ABT_thread_attr_set_stack(a, stk, g_default_stack));
+        int rc = ABT_thread_create_many(3, pl, fns, NULL, a, ths);
+        if (rc == ABT_SUCCESS)
+            vrt_violation("ctx:shared-stack", "ABT_thread_create_many accepted an attribute with a user-supplied stack: 3 ULTs "
+                          "were created on the same stack %p+%zu", (void *)stk, g_default_stack);
+        VRT_ABT(ABT_thread_attr_free(&a));
+        vrt_count(c_many_probe, 1);
+        if (vrt_num_violations())
+            return;
+        free(stk);
     }
     ABT_xstream xs[4];
     for (int i = 0; i < g_nes; i++) {
@@ -787,6 +812,7 @@ int main(int argc, char **argv)
     c_fresh_target = vrt_counter("switch_target_never_started");
     c_started_target = vrt_counter("switch_target_already_started");
     c_rescues = vrt_counter("resumed_by_primary_ult");
+    c_many_probe = vrt_counter("create_many_with_user_stack_refused");
     c_user_unaligned_top = vrt_counter("user_stack_top_not_16_aligned");
     for (int i = 0; i < OP_NOPS; i++) {
         char nm[64];
